@@ -7,6 +7,8 @@ import HappyProofs.C02.NestedAll
 import HappyProofs.C02.Finish
 import HappyProofs.C02.HooksRun
 import HappyProofs.C02.Late
+import HappyProofs.C02.JudgeWait
+import HappyProofs.C02.JudgeHooks
 /-!
 # C02 — property theorems (process layer)
 
@@ -495,5 +497,55 @@ example :
 example :
     ((run procMachine none 12 (demoShared.initState false)).log.filter (fun e => e.kind == 4)).map (·.time)
       = [6, 16, 26] := by decide
+
+/-! ### the trace Spec on the model's own trace (statements in `HappyProofs/C02/JudgeDelay.lean`, `JudgeWait.lean`) -/
+
+open HappyModel.C02.Spec (Line delayMonitor waitMonitor) in
+-- non-vacuity of `delay_clauses_silent_on_model` / `wait_clause_silent_on_model`: the `R` / `y` / `w` lines of the
+-- demo run — process 0 yields 10 ns at t = 1 (tag 4) and is resumed at t = 11 with that tag and `None`;
+-- process 1 yields future 0 at t = 2 and is resumed by it at t = 5 — and both monitors accept them
+example :
+    (delayView none 6 (demoLate.initState false)).map
+        (fun l => match l with
+          | .ydelay tag pid t => ("y", tag, pid, t, "")
+          | .wait pid f _ => ("w", pid, f, 0, "")
+          | .resume clk pid val tag => ("R", clk, pid, tag, val)
+          | _ => ("?", 0, 0, 0, ""))
+      = [("y", 4, 0, 11, ""), ("w", 1, 0, 0, ""), ("R", 5, 1, 0, "a0.3"), ("R", 11, 0, 4, "none")] ∧
+    delayMonitor (delayView none 6 (demoLate.initState false)) = none ∧
+    waitMonitor (delayView none 6 (demoLate.initState false)) = none ∧
+    demoLate.Plain := by
+  refine ⟨by decide, by decide, by decide, ?_⟩
+  unfold Program.Plain; decide
+
+open HappyModel.C02.Spec (Line hookMonitor) in
+-- non-vacuity of `hook_clauses_silent_on_model`: the hook lines of the demo run — process 0 (event 0, tag 1) adds
+-- hook 5 to its own event while in flight (t = 1), another handler adds hook 6 at t = 5, the process finishes at
+-- t = 11 and both hooks run then, in that order — and the monitor accepts them; it rejects a trace in which the
+-- second hook is missing, and one in which a hook runs that was never attached
+example :
+    (hookView none 6 (demoLate.initState false)).filterMap
+        (fun l => match l with
+          | .hookAdd t k => some ("h", t, k)
+          | .hookRun c k => some ("H", c, k)
+          | .finish c pid => some ("F", c, pid)
+          | .start c t => some ("S", c, t)
+          | _ => none)
+      = [("S", 1, 1), ("h", 1, 5), ("S", 2, 2), ("S", 5, 3), ("h", 1, 6), ("F", 5, 2), ("F", 5, 1), ("F", 11, 0),
+         ("H", 11, 5), ("H", 11, 6)] ∧
+    hookMonitor (hookView none 6 (demoLate.initState false)) = none ∧
+    hookMonitor [Line.start 1 1, Line.hookAdd 1 5, Line.hookAdd 1 6, Line.finish 11 0, Line.hookRun 11 5, Line.created,
+                 Line.other] = some "process/hook/not-run-at-finish" ∧
+    hookMonitor [Line.start 1 1, Line.finish 11 0, Line.hookRun 11 5] = some "process/hook/ran-without-being-due" := by
+  decide
+
+open HappyModel.C02.Spec (Line delayMonitor waitMonitor) in
+-- the monitors are not vacuous: a resumption at the wrong instant, with a value, or without a wait is reported
+example :
+    delayMonitor [Line.ydelay 4 0 11, Line.resume 12 0 "none" 4] = some "process/delay-resume-at-wrong-time" ∧
+    delayMonitor [Line.ydelay 4 0 11, Line.resume 11 0 "n5" 4] = some "process/delay-resume-with-value" ∧
+    delayMonitor [Line.resume 11 0 "none" 4] = some "process/resumed-without-pending-delay" ∧
+    waitMonitor [Line.wait 1 0 false, Line.resume 5 1 "n1" 0, Line.resume 6 1 "n1" 0] = some "future/resumed-without-wait" := by
+  decide
 
 end HappyModel.C01
